@@ -42,6 +42,8 @@ struct Script {
 struct Driver {
     script: Rc<Script>,
     signals: Vec<Signal>,
+    /// signals the test case does not know: a layout entry `?k` makes the driver report a value for foreign signal k
+    foreign: Vec<Signal>,
     calls: Rc<RefCell<usize>>,
     log: Rc<RefCell<Vec<String>>>,
 }
@@ -75,8 +77,14 @@ impl Driver {
         let vals = self.script.answers.get(&idx).unwrap_or(&self.script.default_answer);
         let mut out = vec![];
         for (k, name) in layout.iter().enumerate() {
-            let Some(sig) = self.signals.iter().find(|s| &s.name == name) else {
-                continue;
+            let sig = if let Some(k) = name.strip_prefix('?') {
+                let k: usize = k.parse().unwrap_or(0);
+                &self.foreign[k % self.foreign.len()]
+            } else {
+                let Some(sig) = self.signals.iter().find(|s| &s.name == name) else {
+                    continue;
+                };
+                sig
             };
             let v = if self.script.echo {
                 // echo mode: output k carries (call index * 16 + k) xor the first numeric input
@@ -539,6 +547,11 @@ fn main() {
     let d = Driver {
         script: script.clone(),
         signals: test_case.signals.clone(),
+        foreign: vec![
+            Signal::output("FOREIGN_A", 8),
+            Signal::output("FOREIGN_B", 4),
+            Signal::input("FOREIGN_IN", 1, InputValue::Value(0)),
+        ],
         calls,
         log: log.clone(),
     };
